@@ -137,10 +137,19 @@ package multiterm
 // the k-th pair of writes (width-cut text, newline) carries line k
 //@ func (*VirtualTerm).WriteToOutput
 //@   requires out != nil
+//@   modifies ghost term_line(term_row(0)), ghost term_dirty(term_row(0)), ghost term_col0(0), ghost w_calls(out)
 //@   ensures [all-lines] w_calls(out) == old(w_calls(out)) + 2 * len(s.lines)
 //@   assert at "WriteLineNoWrap(out, line)" : 0 <= fdiv(w_calls(out) - old(w_calls(out)), 2) && fdiv(w_calls(out) - old(w_calls(out)), 2) < len(s.lines) && $arg1 == s.lines[fdiv(w_calls(out) - old(w_calls(out)), 2)]
 //@   loop 1 invariant ref(rangeslice()) == ref(s.lines) && off(rangeslice()) == off(s.lines) && len(rangeslice()) == len(s.lines)
 //@   loop 1 invariant rangeindex + 1 <= len(s.lines) && w_calls(out) == old(w_calls(out)) + 2 * (rangeindex + 1)
+// closing the buffered terminal prints the stored lines (to standard output) and then closes the store
+//@ func (*VirtualTerm).Close
+//@   modifies s.closed
+//@   ensures s.closed
+//@ func (*BufferedTerm).Close
+//@   requires s.VirtualTerm != nil
+//@   assert at "s.WriteToOutput(os.Stdout)" : $arg0 == s.VirtualTerm && s.VirtualTerm.closed == old(s.VirtualTerm.closed)
+//@   ensures s.VirtualTerm.closed
 //@ func (*VirtualTerm).Get
 //@   pure
 //@   ensures (line < 0 || line >= len(s.lines)) ==> result == ""
